@@ -20,6 +20,10 @@ var clockMenu = []time.Duration{time.Millisecond, time.Millisecond, 10 * time.Mi
 func drawParams(st *simcore.Stream, spec string) Params {
 	p := Params{N: 2 + st.Intn(3), QueueLen: 1 + st.Intn(16), Workers: 1 + st.Intn(4)}
 	switch {
+	case strings.Contains(spec, "quic"):
+		// QUIC needs datagrams of at least 1200 bytes
+		p.InnerMTU = simcore.Pick(st, 1350, 1500, 9000)
+		p.QuicMTU = simcore.Pick(st, 1200, 4000, 20000)
 	case strings.Contains(spec, "p2pke"):
 		// room for the P2PKE handshake messages (~200 bytes) beneath
 		p.InnerMTU = simcore.Pick(st, 300, 400, 576, 1280)
